@@ -79,22 +79,35 @@ def build_cli():
 
 # ----------------------------------------------------------------------------- driver
 
-def run_driver(mode, jobs, threads=None):
-    """Run a batch through the real library code. Returns results in job order."""
-    if not jobs:
-        return []
+def _run_driver_once(mode, jobs, threads):
     env = dict(os.environ)
-    env["VERIF_DRIVER_THREADS"] = str(threads or min(NCPU, 16))
+    env["VERIF_DRIVER_THREADS"] = str(threads)
     env["RUST_BACKTRACE"] = "0"
     env.pop("RUST_LOG", None)
     data = "\n".join(json.dumps(j) for j in jobs) + "\n"
     r = subprocess.run([DRIVER, mode], input=data, capture_output=True, text=True, env=env)
     if r.returncode != 0:
-        raise ToolError(f"driver {mode} exited {r.returncode}: {r.stderr[-2000:]}")
+        return None, r
     out = [json.loads(l) for l in r.stdout.splitlines() if l.strip()]
     if len(out) != len(jobs):
         raise ToolError(f"driver returned {len(out)} results for {len(jobs)} jobs")
-    return out
+    return out, r
+
+
+def run_driver(mode, jobs, threads=None):
+    """Run a batch through the real library code. Returns results in job order. A job that kills the
+    driver process (stack overflow, abort) is isolated by bisection and reported as status "abort"."""
+    if not jobs:
+        return []
+    out, r = _run_driver_once(mode, jobs, threads or min(NCPU, 16))
+    if out is not None:
+        return out
+    if r.returncode > 0 and r.returncode != 134:
+        raise ToolError(f"driver {mode} exited {r.returncode}: {r.stderr[-2000:]}")
+    if len(jobs) == 1:
+        return [{"id": jobs[0].get("id"), "status": "abort", "panic": f"process killed (rc={r.returncode}): {r.stderr[-300:].strip()}"}]
+    mid = len(jobs) // 2
+    return run_driver(mode, jobs[:mid], threads) + run_driver(mode, jobs[mid:], threads)
 
 
 # ----------------------------------------------------------------------------- TLC
@@ -174,7 +187,7 @@ def run_tlc(module, cfg=None, workers=4, timeout=600, simulate=None, depth=None,
         m = re.search(r"(\d+) states checked", res.out)
         if m:
             res.states = res.distinct = int(m.group(1))
-    viol = re.search(r"Error: (Invariant (\w+) is violated|Temporal properties were violated|Deadlock reached"
+    viol = re.search(r"Error: (Invariant (\w+) is violated|Temporal propert(?:y \w+ was|ies were) violated|Deadlock reached"
                      r"|Action property (\w+) is violated|The postcondition [^\n]*)", res.out)
     if viol:
         res.violation = viol.group(1)
